@@ -12,6 +12,13 @@ from harness import router_gen as G
 
 LITS = ['a', 'b', '/', '-', '.', '0', 'é', 'x/', '/a', 'ab', 'a/b', '/a/', 'end', '/end', '.5', '0.', '1', '-x-', 'y',
         '_', '//', 'a.b/c', ':', '.0', '5', 'static/x', 'abcdefghij', '/v1/items/']
+# class: literal rule text that is META-SYNTAX for some internal mechanism a builder / matcher may be written with
+# (printf-style and str.format templates, string.Template, regex patterns and replacement strings): pre-encoded text
+# ('/caf%C3%A9/'), prices ('/sale-50%/'), '%s', '%%', '$x', regex operators.  ORACLE-ONLY literal pool ('{', '}', '<', '>',
+# ':' and the backslash are rule syntax and stay out).
+META_LITS = ['%', '%%', '%s', '%d', '%r', '%(x)s', '%C3%A9', 'caf%C3%A9/', 'sale-50%/', 'a%20b', '%2F', '100%', '%/', '/%',
+             '% ', '%%s', '%1$s', '$x', '$', '$$', '${x}', '&', '?', '#', '~', '*', '+', '(', ')', '(a', '[', ']', '[a', '^',
+             '|', 'a|b', '.*', 'a+', '(?:', '!', '@', ';', ',', "'", '"', ' ', 'a b']
 NAMES = ['x', 'y', 'z', 'id', 'n_1', 'Xé', '_p', 'q', 'p']
 RE_POOL = [r'[a-z]+', r'\d+', r'[^/]+', r'a*', r'a|ab', r'(?:ab)+', r'.*', r'.+', r'[ab]*b', r'\w+', r'é+',
            r'[0-9][0-9]', r'x?', r'[^-]*', r'-?1', r'/+', r'a\)b', r'[^/]*/b', r'[^0]+', r'[a-z]*', r'[0-9.]+',
@@ -98,14 +105,15 @@ def gen_wild(rng, anon=.3):
     return ('w', name, 'rex', rng.choice(REX_POOL), rng.choice([None, '1', '2', '3']))
 
 
-def gen_ast(rng):
+def gen_ast(rng, lits=None):
+    lits = lits or LITS
     n = rng.choice([1, 2, 2, 3, 3, 4, 5, 6, 7])
     anon = rng.choice([.3, .3, .3, 0, .9, 1])      # some rules all anonymous, some all named
     segs = []
     for i in range(n):
         r = rng.random()
         if r < .42:
-            segs.append(('lit', rng.choice(LITS)))
+            segs.append(('lit', rng.choice(lits)))
         else:
             segs.append(gen_wild(rng, anon))
     if not any(s[0] == 'w' for s in segs) and rng.random() < .9:
@@ -134,9 +142,9 @@ def gen_ast(rng):
     return res or [('lit', 'a')]
 
 
-def gen_rule(rng):
+def gen_rule(rng, lits=None):
     for _ in range(30):
-        ast = gen_ast(rng)
+        ast = gen_ast(rng, lits)
         t = G.print_rule(rng, ast)
         if t is not None and G.in_domain(t):
             return t, ast
@@ -1153,6 +1161,24 @@ class C19(Check):
                     break
                 rule, ast = gen_rule(rng)
             cases.append((rule, ast, [gen_path(rng, ast) for _ in range(4)]))
+        # literal text that is meta-syntax (format / template / regex): directed (each meta literal before, between and
+        # after wildcards of every built-in kind) and generated (literal pool = meta literals mixed with the ordinary ones)
+        import random as _random
+        mrng = _random.Random(rng.random())
+        for lit in META_LITS:
+            for rule, path in (('/%s/<x>' % lit, '%s/ab' % lit), ('/<x:int>%s' % lit, '12%s' % lit),
+                               ('/a%s<x>/<y:int>%sz' % (lit, lit), 'a%sq/7%sz' % (lit, lit)),
+                               ('/<:int>%s<p:path>' % lit, '5%sa/b' % lit), ('/<x:float>/%s%s/<y:re:[a-z]+>' % (lit, lit), '1.5/%s%s/ab' % (lit, lit))):
+                if G.in_domain(rule):
+                    try:
+                        cases.append((rule, ast_of_rule(rule), [path]))
+                    except Exception:
+                        self._bump('search-meta-lit-unparsed')
+        for _ in range(n // 6):
+            rule, ast = gen_rule(mrng, META_LITS + LITS[:8])
+            if any(s[0] == 'w' and s[2] == 'rex' for s in ast):
+                continue
+            cases.append((rule, ast, [gen_path(mrng, ast) for _ in range(3)]))
         if n >= 60000:
             # exhaustive small scope (thorough tier): a fixed rule universe x every path up to length 5
             import itertools
